@@ -97,7 +97,40 @@ fn decimal(name: &str, a: &[String]) -> Option<String> {
     })
 }
 
+/// `impact.pending <current pool amount> <min amount> <distribute factor> <secs>` on the real
+/// trait-default method, through the model crate's own `TestMarket<u128, 20>`.
+fn impact(name: &str, a: &[String]) -> Option<String> {
+    use gmsol_model::params::position::PositionImpactDistributionParams;
+    use gmsol_model::test::{TestMarket, TestMarketConfig};
+    use gmsol_model::{PositionImpactMarketExt, PositionImpactMarketMutExt};
+    let n = |i: usize| -> u128 { a[i].parse::<u128>().unwrap() };
+    Some(match name {
+        "pending" => {
+            let mut config = TestMarketConfig::<u128, 20>::default();
+            config.position_impact_distribution_params = PositionImpactDistributionParams::builder()
+                .distribute_factor(n(2))
+                .min_position_impact_pool_amount(n(1))
+                .build();
+            let mut market = TestMarket::<u128, 20>::with_config(config);
+            // the pool holds i128-range deltas only: feed the amount in two halves
+            let cur = n(0);
+            let h1 = cur / 2;
+            let h2 = cur - h1;
+            market.apply_delta_to_position_impact_pool(&(h1 as i128)).ok()?;
+            market.apply_delta_to_position_impact_pool(&(h2 as i128)).ok()?;
+            match market.pending_position_impact_pool_distribution_amount(a[3].parse::<u64>().unwrap()) {
+                Ok((d, next)) => format!("Ok({d},{next})"),
+                Err(_) => "Err".into(),
+            }
+        }
+        _ => return None,
+    })
+}
+
 pub fn dispatch(name: &str, a: &[String]) -> Option<String> {
+    if let Some(n) = name.strip_prefix("impact.") {
+        return impact(n, a);
+    }
     if let Some(n) = name.strip_prefix("decimal.") {
         return decimal(n, a);
     }
